@@ -30,6 +30,8 @@
 #define protected public
 #include "inc/Main.h"
 #include "inc/Face.h"
+#include "inc/GlyphCache.h"
+#include "inc/GlyphFace.h"
 #undef private
 #undef protected
 #include "hcommon.h"
@@ -220,6 +222,21 @@ static void run_api(const std::vector<std::string> &f) {
                 } else r = "nofeat";
             }
             else if (op == "info") r = "info=" + face_info(face);
+            else if ((op == "gl" && a.size() >= 2) || op == "gltab") {
+                // GlyphCache::glyph(gid) directly (C08/C09/C10 component correspondence with Model/MemoModel.v): a digest of what it returns
+                const graphite2::GlyphCache &gc = static_cast<const graphite2::Face *>(face)->glyphs();
+                std::vector<unsigned> gids;
+                if (op == "gltab") for (unsigned g = 0; g < gc.numGlyphs(); g++) gids.push_back(g);
+                else { std::istringstream is(a[1]); std::string x; while (std::getline(is, x, ',')) gids.push_back((unsigned)strtoul(x.c_str(), 0, 10)); }
+                r = op + "=" + std::to_string(gc.numGlyphs());
+                for (size_t i = 0; i < gids.size(); i++) {
+                    const graphite2::GlyphFace *g = gc.glyph((unsigned short)gids[i]);
+                    if (!g) { r += ";null"; continue; }
+                    char t[200]; snprintf(t, sizeof t, ";%s/%s/%s/%s/%s/%s/%u", fnum(g->theAdvance().x).c_str(), fnum(g->theAdvance().y).c_str(), fnum(g->theBBox().bl.x).c_str(), fnum(g->theBBox().bl.y).c_str(),
+                                          fnum(g->theBBox().tr.x).c_str(), fnum(g->theBBox().tr.y).c_str(), (unsigned)g->attrs().capacity());
+                    r += t;
+                }
+            }
             else if (op == "just" && a.size() >= 3) { int sl = atoi(a[1].c_str()); if (segs.count(sl) && gr_seg_first_slot(segs[sl])) { float w = gr_seg_justify(segs[sl], gr_seg_first_slot(segs[sl]), segfont[sl], atof(a[2].c_str()), gr_justCompleteLine, 0, 0); r = "just=" + fnum(w); } else r = "none"; }
             else if (op == "break" && a.size() >= 3) {
                 int sl = atoi(a[1].c_str());
